@@ -394,6 +394,15 @@ func runCorpus(vd, repo, id string) []map[string]any {
 			}
 			fired := len(rules) > 0
 			res["fired_rules"] = rules
+			if j.kind == "unresolved" && j.wantFire {
+				// a behaviour-preserving variant on which this check is known to raise a false alarm (DESIGN §13.2)
+				if fired {
+					res["outcome"] = "known false alarm: still fires"
+				} else {
+					res["outcome"] = "known false alarm no longer fires"
+				}
+				return
+			}
 			switch {
 			case fired == j.wantFire:
 				res["outcome"] = "as expected"
